@@ -822,6 +822,42 @@ def _loop_const_shape(body: List[ast.stmt]) -> bool:
     return len(loops_with_ret) == 1 and body[-2] is loops_with_ret[0]
 
 
+def _loop_ret_shape(body: List[ast.stmt]) -> Optional[int]:
+    """pre; LOOP (returns directly in it, no break of its own, no else); post -- inlined as
+    `pre; LOOP with (v = X; break) ... else: post'`: the index of LOOP, or None."""
+    idx = None
+    for i, st in enumerate(body):
+        rets = [x for x in _walk_scope(st) if isinstance(x, ast.Return)]
+        if not rets:
+            continue
+        if isinstance(st, (ast.For, ast.While)):
+            if idx is not None or st.orelse:
+                return None
+            if _loop_level_jumps_kind(st.body, ast.Break):
+                return None
+            for inner in _walk_scope(st):
+                if inner is not st and isinstance(inner, (ast.For, ast.While)) and any(
+                        isinstance(x, ast.Return) for x in _walk_scope(inner)):
+                    return None
+                if isinstance(inner, ast.Try) and inner.finalbody and any(
+                        isinstance(x, ast.Return) for x in _walk_scope(inner)):
+                    return None
+            idx = i
+        elif idx is None:
+            return None  # a return in front of the loop
+    if idx is None:
+        return None
+    post = body[idx + 1:]
+    if post and any(isinstance(x, ast.Return) for s_ in post for x in _walk_scope(s_)):
+        if _structure_returns(post) is None:
+            return None
+    return idx
+
+
+def _loop_level_jumps_kind(body: List[ast.stmt], kind) -> List[ast.AST]:
+    return [j for j in _loop_level_jumps(body) if isinstance(j, kind)]
+
+
 def _is_procedure(body: List[ast.stmt]) -> bool:
     body = _strip_doc(body)
     if not body:
@@ -851,6 +887,7 @@ class _Helper:
         self.proc = self.expr is None and _is_procedure(node.body)  # type: ignore[attr-defined]
         self.structured: Optional[List[ast.stmt]] = None
         self.loopconst = False
+        self.loopret: Optional[int] = None
         if self.expr is None and not self.proc and not any(
                 isinstance(x, (ast.Yield, ast.YieldFrom, ast.Await))
                 for x in _walk_scope(node)):
@@ -862,6 +899,10 @@ class _Helper:
                 self.loopconst = _loop_const_shape(_strip_doc(node.body))  # type: ignore
                 if self.loopconst:
                     self.proc = True
+                else:
+                    self.loopret = _loop_ret_shape(_strip_doc(node.body))  # type: ignore
+                    if self.loopret is not None:
+                        self.proc = True
 
     def bind(self, call: ast.Call, recv: Optional[ast.AST]) -> Optional[Dict[str, ast.AST]]:
         params = list(self.params)
@@ -1292,6 +1333,52 @@ def _inline_proc_calls(fn: ast.AST, helpers, cls, counter: List[int]) -> int:
                 block[i:i + 1] = new or [ast.Pass()]
                 n += 1
                 i += len(new) or 1
+                continue
+            if h.loopret is not None:
+                if how == "arg0":
+                    i += 1
+                    continue
+                if how == "assign":
+                    tgs = st.targets
+
+                    def mk(v, tgs=tgs):
+                        return [ast.Assign(targets=copy.deepcopy(tgs), value=v if v is not None
+                                           else ast.Constant(value=None))]
+                elif how == "return":
+                    def mk(v):
+                        return [ast.Return(value=v)]
+                else:
+                    def mk(v):
+                        return []
+                is_ret = how == "return"
+
+                class _RetBreak2(ast.NodeTransformer):
+                    def visit_Return(self, node: ast.Return):
+                        return mk(node.value) + ([] if is_ret else [ast.Break()])
+
+                    def visit_FunctionDef(self, node):
+                        return node
+                    visit_Lambda = visit_FunctionDef
+                k = h.loopret
+                loop = _RetBreak2().visit(body[k])
+                post = body[k + 1:]
+                if post and any(isinstance(x, ast.Return) for s_ in post
+                                for x in _walk_scope(s_)):
+                    post = _returns_to_assign(_structure_returns(post) or post, mk)
+                elif how != "stmt":
+                    post = post + mk(None)  # falling off the end returns None
+                if is_ret:
+                    new = pre + body[:k] + [loop] + post
+                else:
+                    loop.orelse = post
+                    new = pre + body[:k] + [loop]
+                for s_ in new:
+                    for x in ast.walk(s_):
+                        if not hasattr(x, "lineno"):
+                            ast.copy_location(x, st)
+                block[i:i + 1] = new
+                n += 1
+                i += len(new)
                 continue
             if h.loopconst:
                 if how != "assign":
